@@ -500,6 +500,40 @@ func TestC11(t *testing.T) {
 	}
 	col.Exhaustive(fmt.Sprintf("every string of length <= %d (the three single-valued meta attributes <= %d) over {a, Z, 1, ., -, _, /, \", *, &, {, }, space} in each of 22 grammar positions, 400 candidates per configuration on separate keys", L, pick(2, 4)))
 
+	// (a2) every combination of the building blocks of a Go reference - optional & / *, import spelling (none, bare, with a
+	// sub-path, quoted, "."), one to three selectors, optional {} - in the positions that take such references: longer than
+	// the exhaustive strings, and exactly the places where two grammar alternatives meet
+	{
+		var forms []string
+		for _, pre := range []string{"", "&", "*", "**", "&&"} {
+			for _, imp := range []string{"", "a", "a/b", `"a/b"`, `"a"`, `"."`, `"a/b".`, "a/b.v2"} {
+				for nsel := 1; nsel <= 3; nsel++ {
+					for _, suf := range []string{"", "{}", "{}{}", "()"} {
+						sel := strings.Repeat(".S", nsel)[1:]
+						if imp != "" {
+							sel = imp + "." + sel
+						}
+						forms = append(forms, pre+sel+suf)
+					}
+				}
+			}
+		}
+		for _, pn := range []string{"value", "arg-value", "type", "constructor", "function-go-func", "decorator-method"} {
+			for i := 0; i < len(forms); i += 200 {
+				idx++
+				if !ev.Mine(idx) {
+					continue
+				}
+				j := i + 200
+				if j > len(forms) {
+					j = len(forms)
+				}
+				c11Eval(t, c11Case{Position: pn, Candidates: forms[i:j]})
+			}
+		}
+		col.Exhaustive(fmt.Sprintf("%d recombined reference forms (prefix x import spelling x 1-3 selectors x suffix) in the six positions that take Go references", len(forms)))
+	}
+
 	// (c) node kinds, call and tag shapes, scope keywords, creation-method rules, todo exemption
 	for i, r := range c11RawCases() {
 		if ev.Mine(i) {
